@@ -249,7 +249,7 @@ def run(ctx, anchors=None):
         f = fb.funcs[fid]
         for n in f.nodes():
             if n["k"] == "assign" and astq.estr(n["lhs"]).split(".")[-1] == "is_p2sh" and astq.const_value(n["rhs"]) != 0:
-                cj = [astq.estr(c) for c in S.conjuncts(n["rhs"])]
+                cj = [astq.estr(c) for c in S.conjuncts(astq.inline_pure(prog.resolve, astq.expand(f, n["rhs"])))]
                 ctx.site()
                 ctx.inst(any("SCRIPT_VERIFY_P2SH" in c and "flags" in c and not c.startswith("!") for c in cj), "R09.3", "p2sh-definition-has-flag@" + f.name, f.loc(n),
                          "F4: is_p2sh is a conjunction with the P2SH flag as positive conjunct",
@@ -388,6 +388,54 @@ def classify_read(ctx, prog, f, n, derived_defs):
             if i.get("field") == "fRequireMinimal":
                 return "F3", "constructor initialiser of fRequireMinimal"
             return None, "initialises field %s" % i.get("field")
+    # F5 a hoisted boolean: `const bool f = (flags & X) != 0;` (the flag a positive conjunct of the initialiser), never written
+    # again; every use of f must then be restrictive in the way a direct flag test has to be
+    def pos_conj_of(root, node):
+        cur = node
+        par_ = f.parent(cur)
+        while par_ is not None and cur is not root:
+            k_ = par_.get("k")
+            if (k_ == "bin" and par_["op"] == "!=" and astq.const_value(par_["rhs"]) == 0 and par_["lhs"] is cur) or k_ == "cast" or (k_ == "bin" and par_["op"] == "&&"):
+                cur, par_ = par_, f.parent(par_)
+                continue
+            return False
+        return cur is root
+    for dn in f.nodes():
+        if dn["k"] != "decl":
+            continue
+        for d in dn["decls"]:
+            init = d.get("init")
+            if init is None or not S.contains(init, n):
+                continue
+            if astq.single_defs(f).get(d.get("d")) is None or (d.get("ct") or d.get("ty") or "") not in ("bool", "const bool"):
+                return None, "stored in the local %s (not a write-once boolean)" % d["n"]
+            if not pos_conj_of(init, n):
+                return None, "the flag is not a positive conjunct of the initialiser of %s" % d["n"]
+            uses = [u for u in f.nodes() if u["k"] == "ref" and u.get("d") == d.get("d") and u.get("dk") == "local"]
+            if not uses:
+                return None, "the local %s is never used" % d["n"]
+            for u in uses:
+                cls, why = classify_bool_use(ctx, prog, f, u, d["n"])
+                if not cls:
+                    return None, "its hoisted copy %s is %s" % (d["n"], why)
+            return "F5", "hoisted into the write-once boolean %s whose %d use(s) are positive conjuncts of check-only failing regions" % (d["n"], len(uses))
+    # F6 a predicate helper: the function is a single `return E;` with the flag a positive conjunct of E; every call of it is
+    # judged as if the flag test stood there
+    body = f.body.get("ch", []) if f.body is not None and f.body.get("k") == "block" else []
+    body = [b for b in body if b is not None and b.get("k") != "null_stmt"]
+    if len(body) == 1 and body[0].get("k") == "return" and body[0].get("e") is not None and S.contains(body[0]["e"], n):
+        root = body[0]["e"]
+        while root is not None and root.get("k") == "cast":
+            root = root["e"]
+        if pos_conj_of(root, n) or pos_conj_of(body[0]["e"], n):
+            sites = [(g, c) for g in prog.facts.funcs.values() if g.body is not None for c in g.nodes() if c["k"] == "call" and c.get("cid") and f in prog.resolve(c["cid"])]
+            if not sites:
+                return None, "predicate helper %s is never called" % f.name
+            for (g, c) in sites:
+                cls, why = classify_read(ctx, prog, g, c, derived_defs)
+                if not cls:
+                    return None, "predicate helper %s is used in %s where %s" % (f.name, g.name, why)
+            return "F6", "positive conjunct of the predicate helper %s, each of whose %d call(s) is restrictive" % (f.name, len(sites))
     return None, "the test is neither an if-conjunct, a negated NOP guard, nor a recognised derived definition"
 
 
